@@ -232,6 +232,39 @@ func init() {
 			}(g)
 		}
 		wg.Wait()
+		// the token package's accessors (what semantic actions call on their tokens), concurrently on tokens of the
+		// goroutines' own making - some spellings shared, some unique per goroutine - then compared with a sequential call
+		if im.TokenAPI != nil {
+			lits := func(g int) []string {
+				return []string{"abc", "x1", "123", "1.5", "'x'", "\"s t\"", fmt.Sprintf("id%dq", g), fmt.Sprintf("%d", 1000+g), fmt.Sprintf("name_%d_%d", g, g*g)}
+			}
+			res := make([][]string, 16)
+			var wg2 sync.WaitGroup
+			for g := 0; g < 16; g++ {
+				wg2.Add(1)
+				go func(g int) {
+					defer wg2.Done()
+					for round := 0; round < 3; round++ {
+						for _, l := range lits(g) {
+							res[g] = append(res[g], im.TokenAPI(2, l))
+						}
+					}
+				}(g)
+			}
+			wg2.Wait()
+			for g := 0; g < 16; g++ {
+				k := 0
+				for round := 0; round < 3; round++ {
+					for _, l := range lits(g) {
+						st.add("token_accessor_calls", 1)
+						if want := im.TokenAPI(2, l); res[g][k] != want {
+							st.violation("C17", fmt.Sprintf("%s race tokenapi %s", it.ID, l), fmt.Sprintf("free-running goroutine %d: the token accessors on a token %q give %s; alone %s", g, l, res[g][k], want), map[string]any{"lit": l})
+						}
+						k++
+					}
+				}
+			}
+		}
 		for i, in := range ins {
 			if in.src != nil && string(in.src) != pristine[i] {
 				st.violation("C17", fmt.Sprintf("%s race buffer %q", it.ID, pristine[i]), fmt.Sprintf("the source bytes handed to the lexers (read-only input shared by all goroutines) were modified: %q is now %q", pristine[i], in.src),
